@@ -260,8 +260,8 @@ Proof.
     destruct (looser_inv _ _ Li) as [->|Li']; [done_with I|].
     destruct ti; cbn in Li'; try contradiction; try discriminate; subst.
     destruct index as [? ?|?|? ?|? ?|? ?|ip s|? ?|?|? ?|? ?|? ? ?|? ? ?|? ? ?]; try (inv_pair H; destruct m as [mt|], n as [nt|]; cbn in Lm; try contradiction; subst; fin2).
-    pose proof (props_looser_lookup _ _ s Lps) as LK.
-    destruct (lookup s ps) as [pt|], (lookup s qs) as [pt'|]; try contradiction.
+    pose proof (props_looser_lookup _ _ (lower s) Lps) as LK.
+    destruct (lookup (lower s) ps) as [pt|], (lookup (lower s) qs) as [pt'|]; try contradiction.
     + inv_pair H. done_with LK.
     + destruct m as [mt|]; [|discriminate]. destruct n as [nt|]; cbn in Lm; [|contradiction].
       inv_pair H. done_with Lm.
@@ -509,7 +509,7 @@ Qed.
 Lemma arrderef_node_clean pos t : Forall clean (snd (arrderef_node fa pos t)).
 Proof. unfold arrderef_node. clean_tac. Qed.
 Lemma index_node_clean o i ti t : Forall clean (snd (index_node o i ti t)).
-Proof. unfold index_node. clean_tac. Qed.
+Proof. unfold index_node, index_node_gen. clean_tac. Qed.
 Lemma not_node_clean p t : Forall clean (snd (not_node p t)).
 Proof. unfold not_node. cbn. constructor. Qed.
 Lemma cmp_node_clean op pos tl tr : Forall clean (snd (cmp_node op pos tl tr)).
